@@ -507,41 +507,43 @@ func MillerLoopFixedQ(P []G1Affine, lines [][2][len(LoopCounter) - 1]LineEvaluat
 	var result GT
 	result.SetOne()
 	var prodLines [5]fp.Element
+	// line evaluations at P[k] are computed into l0, l1: the caller's lines are read-only
+	var l0, l1 LineEvaluationAff
 
 	for i := len(LoopCounter) - 2; i >= 0; i-- {
 		result.Square(&result)
 
 		j := LoopCounter[i]*3 + LoopCounter1[i]
 		for k := 0; k < n; k++ {
-			lines[k][0][i].R1.
+			l0.R1.
 				Mul(
 					&lines[k][0][i].R1,
 					&yInv[k],
 				)
-			lines[k][0][i].R0.
+			l0.R0.
 				Mul(&lines[k][0][i].R0,
 					&xNegOverY[k],
 				)
 			if j == 0 {
 				result.MulBy01(
-					&lines[k][0][i].R1,
-					&lines[k][0][i].R0,
+					&l0.R1,
+					&l0.R0,
 				)
 
 			} else {
-				lines[k][1][i].R1.
+				l1.R1.
 					Mul(
 						&lines[k][1][i].R1,
 						&yInv[k],
 					)
-				lines[k][1][i].R0.
+				l1.R0.
 					Mul(
 						&lines[k][1][i].R0,
 						&xNegOverY[k],
 					)
 				prodLines = fptower.Mul01By01(
-					&lines[k][0][i].R1, &lines[k][0][i].R0,
-					&lines[k][1][i].R1, &lines[k][1][i].R0,
+					&l0.R1, &l0.R0,
+					&l1.R1, &l1.R0,
 				)
 				result.MulBy01245(&prodLines)
 			}
